@@ -368,7 +368,11 @@ def crossing(ctx):
     f = P.func('Paraxial.XPD')
     res.saw(f)
     ev, info, sym = _ret_eval(P, f)
-    want = C(2) * (A('YA[-1]') + A('UA[-1]') * A('XPL()'))
+    # the exit pupil lies in image space: the ray is propagated with the
+    # slope it has when it arrives at the image surface (record [-2]); the
+    # record [-1] is the slope after the image surface refracted into its own
+    # post medium (same convention as f2, F2, XPL, image_solve)
+    want = C(2) * (A('YA[-1]') + A('UA[-2]') * A('XPL()'))
     # a diameter is a magnitude (|pupil magnification| x stop diameter in
     # matrix optics): the value is |want|, i.e. its square is want^2 and it
     # carries the sign factor of an absolute value
@@ -1129,5 +1133,12 @@ def vertex_curvature(ctx):
     return res
 
 
-RULES = [vertex_curvature, mirror_index, c01_media_chain, no_stale, records, chief_ray, parax_eq, invariant_step, parax_linear, crossing, signed_return,
+def c13_inputs_converted(ctx):
+    """shared with C13: paraxial queries accept the numeric types the
+    prescription may hold"""
+    from .C13 import inputs_converted as _r
+    return _r(ctx)
+
+
+RULES = [c13_inputs_converted, vertex_curvature, mirror_index, c01_media_chain, no_stale, records, chief_ray, parax_eq, invariant_step, parax_linear, crossing, signed_return,
          fno_epd, mag_inv, inverted4, object_position]
